@@ -113,12 +113,18 @@ Record env := mkEnv { key : cid -> ckey; tgt : sid -> target }.
       lookup time (false for the code as it is: server.rs:856-880 [Server::cancel] makes ONE
       [TcpStream::connect]; on error it logs and returns [Err], nothing is retried and nothing is
       remembered — lookup and the single delivery attempt are one step; a mutant used to show that
-      the check notices late deliveries). *)
+      the check notices late deliveries).
+    [lookup_at_accept]: the target of a CancelRequest is looked up when its connection is accepted
+      ([Client::cancel]) and used later in [handle] (false for the code as it is:
+      client.rs [Client::cancel] only copies the key out of the packet; the map is read inside
+      [handle], client.rs cancel_mode branch — AFTER [client_entrypoint]'s [drain.send(1).await]
+      (client.rs:314-318), where the task may wait for the accounting channel; a mutant used to
+      show that the check notices a lookup that is older than the delivery). *)
 Record variant := mkVariant { cancel_drop_removes : bool; exit_entry_first : bool; reload_prunes : bool;
-                              cancel_retries : bool }.
+                              cancel_retries : bool; lookup_at_accept : bool }.
 
-Definition v_repaired : variant := mkVariant false true false false. (* the code as it is (since 1e593b9) *)
-Definition v_orig : variant := mkVariant true false false false.     (* the code before 1e593b9: both defects *)
+Definition v_repaired : variant := mkVariant false true false false false. (* the code as it is (since 1e593b9) *)
+Definition v_orig : variant := mkVariant true false false false false.     (* the code before 1e593b9: both defects *)
 
 (** The variant the correspondence check runs the implementation against, and the one the
     main theorems of Props.v are stated for.  Change this one definition when /repo changes
@@ -134,11 +140,14 @@ Record state := mkState {
   gcancel : ckey -> bool;
   (* CancelRequests whose connection could not be established and that are still being retried
      (only with [cancel_retries]; always empty for the code as it is) *)
-  pending : list target
+  pending : list target;
+  (* CancelRequests whose connection was accepted and whose [handle] has not run yet, with what the
+     map said at accept time (only with [lookup_at_accept]; always empty for the code as it is) *)
+  accepted : list (ckey * option target)
 }.
 
 Definition init : state :=
-  mkState [] (fun _ => mkClient None Running) (fun _ => Idle) (fun _ => false) [].
+  mkState [] (fun _ => mkClient None Running) (fun _ => Idle) (fun _ => false) [] [].
 
 Definition updc (f : cid -> client) (c : cid) (x : client) : cid -> client :=
   fun c' => if Nat.eqb c' c then x else f c'.
@@ -148,6 +157,18 @@ Definition updg (f : ckey -> bool) (k : ckey) (x : bool) : ckey -> bool :=
   fun k' => if ckey_eqb k' k then x else f k'.
 
 Definition back (clean : bool) : loc := if clean then Idle else Closed.
+
+(** Accepted-but-not-yet-handled cancel requests (mutant bookkeeping). *)
+Fixpoint acc_find (k : ckey) (l : list (ckey * option target)) : option (option target) :=
+  match l with
+  | [] => None
+  | (k', o) :: r => if ckey_eqb k' k then Some o else acc_find k r
+  end.
+Fixpoint acc_remove (k : ckey) (l : list (ckey * option target)) : list (ckey * option target) :=
+  match l with
+  | [] => []
+  | (k', o) :: r => if ckey_eqb k' k then r else (k', o) :: acc_remove k r
+  end.
 
 (** The idle connections among [l] are gone; borrowed ones stay borrowed. *)
 Definition retire_sv (f : sid -> loc) (l : list sid) : sid -> loc :=
@@ -171,6 +192,13 @@ Inductive op :=
                                             the one connect fails -> Err): the request is dropped.  With
                                             the mutant [cancel_retries] the looked-up target is kept. *)
 | DeliverLate                            (* a kept request finally gets through (mutant only) *)
+| CancelAccept (k : ckey)                (* the connection of a CancelRequest with key k is accepted:
+                                            [Client::cancel] builds the value; [client_entrypoint] then
+                                            does [drain.send(1).await] (client.rs:314-316) where the task
+                                            may wait.  The map is not read (mutant: it is, and the answer
+                                            is kept). *)
+| CancelAct (k : ckey)                   (* [handle] of that request runs: lookup NOW + contact (mutant:
+                                            the answer kept at accept time is used) *)
 | Reload (retired : list sid).           (* configuration reload (config.rs:1665 reload_config ->
                                             pool.rs:312 from_config): the pools are rebuilt; the
                                             connections in [retired] belong to a pool that was
@@ -193,6 +221,7 @@ Definition step (E : env) (v : variant) (st : state) (o : op) : state :=
                   (upds (sv st) s (HeldBy c))
                   (updg (gcancel st) (key E c) false)
                   (pending st)
+                  (accepted st)
       | _, _, _ => st
       end
   | ReleaseNormal c clean =>
@@ -203,6 +232,7 @@ Definition step (E : env) (v : variant) (st : state) (o : op) : state :=
                   (upds (sv st) s (back clean))
                   (gcancel st)
                   (pending st)
+                  (accepted st)
       | _, _ => st
       end
   | Terminate c clean =>
@@ -213,6 +243,7 @@ Definition step (E : env) (v : variant) (st : state) (o : op) : state :=
                   (upds (sv st) s (back clean))
                   (gcancel st)
                   (pending st)
+                  (accepted st)
       | _, _ => st
       end
   | ExitDropGuard c clean =>
@@ -223,6 +254,7 @@ Definition step (E : env) (v : variant) (st : state) (o : op) : state :=
                   (upds (sv st) s (back clean))
                   (gcancel st)
                   (pending st)
+                  (accepted st)
       | _, _ => st
       end
   | ExitDropClient c =>
@@ -233,27 +265,28 @@ Definition step (E : env) (v : variant) (st : state) (o : op) : state :=
                   (sv st)
                   (gcancel st)
                   (pending st)
+                  (accepted st)
       | _, _ => st
       end
   | SrvClose s =>
       match sv st s with
-      | Idle => mkState (csm st) (cl st) (upds (sv st) s Closed) (gcancel st) (pending st)
+      | Idle => mkState (csm st) (cl st) (upds (sv st) s Closed) (gcancel st) (pending st) (accepted st)
       | _ => st
       end
   | Cancel _ => st
   | CancelDrop k =>
       if cancel_drop_removes v
-      then mkState (csm_remove k (csm st)) (cl st) (sv st) (updg (gcancel st) k true) (pending st)
+      then mkState (csm_remove k (csm st)) (cl st) (sv st) (updg (gcancel st) k true) (pending st) (accepted st)
       else st
   | CancelRefused k =>
       if cancel_retries v
       then match csm_lookup k (csm st) with
-           | Some t => mkState (csm st) (cl st) (sv st) (gcancel st) (pending st ++ [t])
+           | Some t => mkState (csm st) (cl st) (sv st) (gcancel st) (pending st ++ [t]) (accepted st)
            | None => st
            end
       else st
   | DeliverLate =>
-      mkState (csm st) (cl st) (sv st) (gcancel st) (tl (pending st))
+      mkState (csm st) (cl st) (sv st) (gcancel st) (tl (pending st)) (accepted st)
   | Reload retired =>
       mkState (if reload_prunes v
                then csm_remove_all (keys_at (map (fun s => snd (tgt E s)) retired) (csm st)) (csm st)
@@ -262,6 +295,14 @@ Definition step (E : env) (v : variant) (st : state) (o : op) : state :=
               (retire_sv (sv st) retired)
               (gcancel st)
               (pending st)
+              (accepted st)
+  | CancelAccept k =>
+      if lookup_at_accept v
+      then mkState (csm st) (cl st) (sv st) (gcancel st) (pending st)
+                   (accepted st ++ [(k, csm_lookup k (csm st))])
+      else st
+  | CancelAct k =>
+      mkState (csm st) (cl st) (sv st) (gcancel st) (pending st) (acc_remove k (accepted st))
   end.
 
 Definition run (E : env) (v : variant) (ops : list op) : state := fold_left (step E v) ops init.
@@ -276,6 +317,17 @@ Definition cancel_out (st : state) (k : ckey) : outcome :=
 Definition late_out (st : state) : outcome :=
   match pending st with t :: _ => Contact t | [] => Silent end.
 
+(** What the [handle] of an accepted CancelRequest does: the code looks the key up now; the mutant
+    uses what the map said when the connection was accepted. *)
+Definition act_out (v : variant) (st : state) (k : ckey) : outcome :=
+  if lookup_at_accept v
+  then match acc_find k (accepted st) with
+       | Some (Some t) => Contact t
+       | Some None => Silent
+       | None => cancel_out st k
+       end
+  else cancel_out st k.
+
 (** Observable trace of a schedule: what reaches a backend for every [Cancel] (at once), every
     [CancelRefused] (nothing) and every [DeliverLate], in order. *)
 Fixpoint outcomes_from (E : env) (v : variant) (st : state) (ops : list op) : list outcome :=
@@ -284,6 +336,7 @@ Fixpoint outcomes_from (E : env) (v : variant) (st : state) (ops : list op) : li
   | Cancel k :: r => cancel_out st k :: outcomes_from E v (step E v st (Cancel k)) r
   | CancelRefused k :: r => Silent :: outcomes_from E v (step E v st (CancelRefused k)) r
   | DeliverLate :: r => late_out st :: outcomes_from E v (step E v st DeliverLate) r
+  | CancelAct k :: r => act_out v st k :: outcomes_from E v (step E v st (CancelAct k)) r
   | o :: r => outcomes_from E v (step E v st o) r
   end.
 Definition outcomes (E : env) (v : variant) (ops : list op) : list outcome := outcomes_from E v init ops.
